@@ -12,11 +12,13 @@ theorem C02_nonneg_step (op : CellOp) (c c' : Cell) (hd : op.inDomain c)
     c'.nonNeg = true :=
   (cellOp_facts op c c' hd (good_of_bool hn ht) h).good.nonNeg
 
+/-- A host move keeps every count of both cells non-negative. Holds whatever the lengths of the
+    target's cohort lists (in the C++ all cells share the lengths of the exposed and of the
+    mortality-tracker vectors). -/
 theorem C02_nonneg_move (src dst : Cell) (count : Int) (d : ClassDraw) (dE dM : List Int)
     (hs : src.nonNeg = true) (hts : src.totalsOK = true) (hdn : dst.nonNeg = true) (hc : 0 ≤ count)
     (hd : validClassDrawB src count d = true)
-    (hE : d.e > 0 → ValidDraw src.e d.e dE) (hM : d.i > 0 → ValidDraw src.mort d.i dM)
-    (hlenE : dst.e.length = src.e.length) (hlenM : dst.mort.length = src.mort.length) :
+    (hE : d.e > 0 → ValidDraw src.e d.e dE) (hM : d.i > 0 → ValidDraw src.mort d.i dM) :
     let r := moveHosts src dst count d dE dM
     r.1.nonNeg = true ∧ r.2.1.nonNeg = true :=
   have hg := good_of_bool hs hts
